@@ -83,6 +83,8 @@ pub struct GenParams {
     pub unicode: bool,
     /// favour tag directives and text lines
     pub tag_boost: bool,
+    /// never write one temp target twice (C09's no-rewrite rule needs that)
+    pub no_temp_rewrite: bool,
 }
 
 impl Default for GenParams {
@@ -101,6 +103,7 @@ impl Default for GenParams {
             abs_paths: true,
             unicode: true,
             tag_boost: false,
+            no_temp_rewrite: false,
         }
     }
 }
@@ -453,6 +456,35 @@ pub fn gen_project(c: &mut Choices, params: &GenParams) -> Project {
             }
         }
     }
+    if params.decoys {
+        // siblings whose names are derived from an output name: what a staging / backup /
+        // swap file of a careless writer would be called
+        for pl in plans.clone() {
+            let out_name = crate::model::names::file_name(&pl.out).to_string();
+            let stem = match out_name.rfind('.') {
+                Some(i) if i > 0 => out_name[..i].to_string(),
+                _ => out_name.clone(),
+            };
+            let cands = [
+                format!("{stem}.tmp"),
+                format!("{out_name}.tmp"),
+                format!("{out_name}~"),
+                format!("{stem}.bak"),
+                format!(".{out_name}.swp"),
+                format!("{out_name}.new"),
+                format!("{out_name}.orig"),
+            ];
+            for (k, cand) in cands.iter().enumerate() {
+                if g.c.chance(1, if k == 0 { 3 } else { 8 }) {
+                    let key = join(&pl.dir, cand);
+                    if !g.used.contains(&key) && !crate::model::names::source_shaped(&key) {
+                        g.used.insert(key.clone());
+                        g.proj.put(&key, format!("precious sibling {cand}\n"));
+                    }
+                }
+            }
+        }
+    }
     for me in 0..n_src {
         let text = gen_source(&mut g, &mut plans, me);
         let path = plans[me].path.clone();
@@ -510,9 +542,10 @@ fn gen_source(g: &mut Gen, plans: &mut Vec<SrcPlan>, me: usize) -> String {
             if !g.p.allow_tags { 0 } else if g.p.tag_boost { 24 } else { 8 }, // 5 tag
             4,                                         // 6 empty
             if g.p.allow_deps { 4 } else { 0 },        // 7 after
+            if g.p.allow_temp && g.p.allow_run && !g.p.no_temp_rewrite { 2 } else { 0 }, // 8 temp rewritten + read twice
         ];
         if flushing {
-            w = if listening.is_some() { vec![0, 0, 0, 1, 0, 0, 0, 0] } else { vec![1, 0, 0, 0, 0, 0, 0, 0] };
+            w = if listening.is_some() { vec![0, 0, 0, 1, 0, 0, 0, 0, 0] } else { vec![1, 0, 0, 0, 0, 0, 0, 0, 0] };
         }
         let kind = g.c.weighted(&w);
         if kind == 0 {
@@ -542,6 +575,35 @@ fn gen_source(g: &mut Gen, plans: &mut Vec<SrcPlan>, me: usize) -> String {
             // a text line may accidentally contain other stored tags: they are then consumed too
             stored.retain(|s| !t.contains(s.as_str()) || Some(s) == overlapped.as_ref());
             emit(g, &mut lines, &mut open, t, false);
+            continue;
+        }
+        if kind == 8 {
+            // the same temp target written twice by this source, read by the same command after
+            // each write: the two reads must differ (README: CONTENT is saved to FILE_PATH)
+            let tdir = dir.clone();
+            let (_, tname) = g.alloc(&tdir, "rw", "tmp");
+            let target = join(&tdir, &tname);
+            let arg = rel_path(&dir, &target);
+            let w1 = *g.c.pick(WORDS);
+            let w2 = *g.c.pick(&["second", "2", "changed"]);
+            if let Some(t) = listening.take() {
+                stored.push(t);
+            }
+            let tagged = listening.is_some();
+            let _ = tagged;
+            for (i, w) in [w1, w2].iter().enumerate() {
+                emit(g, &mut lines, &mut open, format!("# TXTPP#temp {arg}"), false);
+                open = Some((String::new(), "# ".into(), false));
+                emit(g, &mut lines, &mut open, format!("# {w}"), true);
+                emit(g, &mut lines, &mut open, format!("--TXTPP#run cat {arg}"), false);
+                open = Some((String::new(), "--".into(), true));
+                if i == 0 && g.c.chance(1, 2) {
+                    let t = g.text_line(None);
+                    emit(g, &mut lines, &mut open, t, false);
+                }
+            }
+            my_temps.push(target.clone());
+            plans[me].temps.push(target);
             continue;
         }
         let indent = g.c.pick(INDENTS).to_string();
